@@ -74,6 +74,34 @@ def build_unit(name, canary=False):
 
 
 def run_verus(path, cfg, extra=()):
+    """Runs Verus on a generated file. Results are cached by the SHA-256 of the generated text and
+    the options (the same text always gives the same obligations), so that several property checks
+    that share a unit do not re-run the solver on identical input."""
+    with open(path, "rb") as fh:
+        key = hashlib.sha256(fh.read() + repr(sorted(cfg.items())).encode() + repr(extra).encode()).hexdigest()
+    cdir = os.path.join(BUILD, "cache")
+    os.makedirs(cdir, exist_ok=True)
+    cpath = os.path.join(cdir, key + ".json")
+    if os.environ.get("VX_NOCACHE") != "1" and os.path.exists(cpath):
+        try:
+            with open(cpath) as fh:
+                res = json.load(fh)
+            res["cached"] = True
+            return res
+        except ValueError:
+            pass
+    res = _run_verus(path, cfg, extra)
+    res["cached"] = False
+    try:
+        with open(cpath + ".tmp%d" % os.getpid(), "w") as fh:
+            json.dump(res, fh)
+        os.replace(cpath + ".tmp%d" % os.getpid(), cpath)
+    except OSError:
+        pass
+    return res
+
+
+def _run_verus(path, cfg, extra=()):
     rlimit = str(cfg.get("rlimit", 200))
     cmd = ["verus", path, "--output-json", "--time", "--error-format=json",
            "--multiple-errors", "20", "--rlimit", rlimit, "--num-threads", str(cfg.get("threads", 8))] + list(extra)
@@ -195,7 +223,7 @@ def verify_unit(name, canary=False):
         res, fails, rlim, others = res2, fails2, rlim2, others2
     js = res["json"] or {}
     vr = js.get("verification-results", {})
-    out = {"unit": name, "path": path, "cmd": res["cmd"], "wall": res["wall"], "verified": vr.get("verified", 0),
+    out = {"unit": name, "path": path, "cmd": res["cmd"], "wall": res["wall"], "cached": res.get("cached", False), "verified": vr.get("verified", 0),
            "errors": vr.get("errors", 0), "failures": fails, "regions": asm.regions, "asm": asm,
            "smt_ms": (js.get("times-ms", {}).get("smt", {}) or {}).get("total"),
            "total_ms": (js.get("times-ms", {}) or {}).get("total"),
@@ -277,6 +305,13 @@ def cmd_check(pid, tier):
         canaries = {canary_futs[f]: f.result() for f in canary_futs}
 
     undecided = [r for r in results.values() if r["status"] == "undecided"]
+    extra_results = []
+    if "async_identity" in pcfg.get("extra", []):
+        from . import asyncid
+        for (name, ok, detail) in asyncid.check(repo_root()):
+            extra_results.append({"check": "async text identity: " + name, "ok": ok, "detail": detail})
+            if ok is not True:
+                undecided.append({"unit": "async_identity", "reason": "async instantiation of %s is not the verified text: %s" % (name, detail)})
     findings, fixed = load_known()
     my_findings = [f for f in findings if f.get("property") == pid]
     violations, known_hits, foreign = [], [], []
@@ -420,6 +455,8 @@ def cmd_check(pid, tier):
             "backend": "Verus %s (Z3 bundled)" % (next(iter(results.values())).get("verus", {}).get("version", "?") if results else "?"),
             "solver_time_ms": sum((r.get("smt_ms") or 0) for r in results.values()),
             "bounded_units": pcfg.get("bounded_units", []),
+            "extra_checks": extra_results,
+            "cached_units": [u for u in units if results[u].get("cached")],
             "repo": repo_root(),
         },
         "assumptions": reg.get("assumptions", {}).get(pid, []) + reg.get("assumptions", {}).get("*", []),
